@@ -20,9 +20,9 @@ import time
 HERE = os.path.dirname(os.path.abspath(__file__))
 REQ = ['Evo.Independence']
 FN = 'verdicts'
-NVERD = 10
+NVERD = 11
 CLAUSES = ['CRepeat', 'CHashSeed', 'CProgress', 'CLogging', 'CWorkers', 'CWorkersFrom2', 'CWorkersIsolated', 'CFacade',
-           'CWorkersRepeat']
+           'CWorkersRepeat', 'CSameInterpreter']
 
 
 # =================================================================================================
@@ -270,6 +270,19 @@ def worker(job):
     return out
 
 
+def worker_sequence(job):
+    """several runs one after the other in THIS interpreter, each seeded and built from scratch"""
+    outs = []
+    for cfg in job['sequence']:
+        sub = {k_: v for k_, v in job.items() if k_ != 'sequence'}
+        sub['cfg'] = cfg
+        outs.append(worker(sub))
+    res = dict(outs[0])
+    res['job'] = job
+    res['seq'] = outs
+    return res
+
+
 def nx_nodes_metric(g):
     return abs(g.number_of_nodes() - 5) / 2.0
 
@@ -281,7 +294,7 @@ def nx_edges_metric(g):
 if __name__ == '__main__' and len(sys.argv) >= 4 and sys.argv[1] == '--worker':
     _job = json.load(open(sys.argv[2]))
     try:
-        _res = worker(_job)
+        _res = worker_sequence(_job) if _job.get('sequence') else worker(_job)
     except Exception as _ex:  # the harness could not drive the implementation
         import traceback
         _res = {'job': _job, 'harness_error': traceback.format_exc()[-2500:]}
@@ -467,6 +480,18 @@ KINDS = ['evo', 'pop_random_mutation', 'evo', 'random_mutation', 'surrogate', 'e
          'pop_random_mutation', 'random_mutation']
 
 
+# the configuration run in between in the same-interpreter sequences: every add / growth mutation, two crossovers,
+# the bandit agent - whatever state it leaves behind must not reach the next identically seeded run
+BETWEEN_CLASS = {'optimiser': 'evo', 'objective': {'metrics': ['label'], 'multi': False}, 'num_of_generations': 3, 'pop_size': 4,
+                 'max_pop_size': 8, 'scheme': 'steady_state', 'crossover': ['subtree', 'one_point'], 'crossover_prob': 1.0,
+                 'mutation': ['single_add', 'growth', 'local_growth', 'tree_growth', 'single_edge', 'single_drop', 'single_change'],
+                 'initial': 'three', 'early_stopping_iterations': None, 'early_stopping_timeout': None, 'timeout_min': 120.0,
+                 'show_progress': False, 'seed': 424243, 'agent': 'bandit'}
+BETWEEN_FACADE = {'seed': 424243, 'num_of_generations': 3, 'pop_size': 4, 'n_initial': 3, 'multi': False, 'scheme': 'steady_state',
+                  'crossover': ['subtree', 'one_point'], 'mutation': ['single_add', 'single_drop', 'single_change', 'single_edge'],
+                  'optimiser': 'facade', 'objective': {'metrics': ['nodes'], 'multi': False}}
+
+
 def make_config(rng, i, optimiser=None):
     kind = optimiser or KINDS[i % len(KINDS)]
     multi = (i % 3 == 2)
@@ -522,7 +547,8 @@ def build_groups(ctx):
             g['callback_fault'] = {'at': rng.choice([1, 2, 3])}
         hs = 1 + (i % 7)
         g['runs'] = [('base', None, {}), ('repeat', 'CRepeat', {}), ('hash', 'CHashSeed', {'hashseed': hs}),
-                     ('progress', 'CProgress', {'show_progress': True}), ('logging', 'CLogging', {'log_level': 10})]
+                     ('progress', 'CProgress', {'show_progress': True}), ('logging', 'CLogging', {'log_level': 10}),
+                     ('inproc', 'CSameInterpreter', {'sequence': True})]
         groups.append(g)
     par_kinds = ['evo', 'pop_random_mutation', 'surrogate']
     for i in range(n_par):
@@ -548,7 +574,7 @@ def build_groups(ctx):
         g['runs'] = [('base', None, {}), ('repeat', 'CFacade', {}), ('hash', 'CHashSeed', {'hashseed': 3}),
                      ('progress', 'CFacade', {'show_progress': True}), ('logging', 'CFacade', {'log_level': 10}),
                      ('j2', 'CWorkers', {'facade_n_jobs': 2}),
-                     ('j2r', 'CWorkersRepeat', {'facade_n_jobs': 2})]
+                     ('j2r', 'CWorkersRepeat', {'facade_n_jobs': 2}), ('inproc', 'CSameInterpreter', {'sequence': True})]
         groups.append(g)
     return groups
 
@@ -567,6 +593,10 @@ def jobs_of(group):
                'log_level': var.get('log_level', 50), 'hashseed': var.get('hashseed', 0),
                'isolate_joblib': bool(var.get('isolate_joblib')), 'callback_fault': group.get('callback_fault'),
                'group': group['name'], 'run': name, 'clause': clause}
+        if var.get('sequence'):
+            # ONE interpreter: the configuration, the same again, another configuration, the same a third time
+            between = dict(BETWEEN_FACADE if group['family'] == 'facade' else BETWEEN_CLASS)
+            job['sequence'] = [cfg, cfg, between, cfg]
         jobs.append(job)
     return jobs
 
@@ -617,7 +647,16 @@ def build_case(group, results):
     base_x = canonical_export(canon, base)
     others = []
     sub_base = None
+    flat = []
     for r in results[1:]:
+        if r.get('seq'):
+            for pos in (0, 1, 3):
+                sub = dict(r['seq'][pos])
+                sub['job'] = dict(r['job'], run='inproc%d' % (pos + 1 if pos < 3 else 3))
+                flat.append(sub)
+        else:
+            flat.append(r)
+    for r in flat:
         name, clause = r['job']['run'], r['job']['clause']
         x = canonical_export(canon, r)
         if name == 'i1':
@@ -669,7 +708,10 @@ def judge(ctx, group, results, tags, verdicts):
                     'CWorkersFrom2': 'parallel mode: the history depends on n_jobs (2 against 3 / 4)',
                     'CWorkersIsolated': 'parallel mode, joblib identifiers kept off the seeded stream: the history depends on n_jobs',
                     'CFacade': 'GOLEM facade: the history depends on repeat / show_progress / logging level',
-                    'CWorkersRepeat': 'parallel mode, n_jobs=2: two runs with one seed give different histories'}[cl]
+                    'CWorkersRepeat': 'parallel mode, n_jobs=2: two runs with one seed give different histories',
+                    'CSameInterpreter': 'one interpreter, seeded identically before each run (first run / same again / again after '
+                                        'another configuration): a run differs from the fresh-interpreter run - state outside the '
+                                        'generators survives between runs'}[cl]
             # a dependence on PYTHONHASHSEED has no finding key: the crossover sites that chose from sets of nodes
             # were repaired in /repo (b8f358b, 94c2691)
             if cl in ('CWorkers', 'CWorkersRepeat') and group['family'] == 'facade' and bad \
